@@ -238,15 +238,18 @@ func isAligned(fromDomain, authDomain string, mode AlignmentMode) bool {
 
 func ExtractFromDomain(hdr textproto.Header) (string, error) {
 	// TODO(GH emersion/go-message#75): Add textproto.Header.Count method.
-	var firstFrom string
+	var (
+		firstFrom  string
+		fromFields int
+	)
 	for fields := hdr.FieldsByKey("From"); fields.Next(); {
-		if firstFrom == "" {
-			firstFrom = fields.Value()
-		} else {
+		if fromFields != 0 {
 			return "", errors.New("dmarc: multiple From header fields are not allowed")
 		}
+		firstFrom = fields.Value()
+		fromFields++
 	}
-	if firstFrom == "" {
+	if fromFields == 0 {
 		return "", errors.New("dmarc: missing From header field")
 	}
 
